@@ -140,7 +140,7 @@ def _cohort_on(rng):
 
 
 def gen_cases(rng, tier):
-    n = {"quick": 70, "thorough": 700, "search": 100}[tier]
+    n = {"quick": 70, "thorough": 400, "search": 100}[tier]
     cases = [_cohort(rng, ideal=(i % 4 == 0)) for i in range(n)]
     cases += [_cohort_on(rng) for _ in range(max(6, n // 6))]
     for _ in range(n // 2):
